@@ -147,7 +147,7 @@ func init() {
 	})
 	register(&Property{
 		ID: "C38",
-		Explanation: "Decides the shape that keeps a cache in any state from changing what restic reads: (atomic-save) Cache.save publishes a cache file only by renaming a completely copied and closed temporary created in the same directory, removes the temporary on errors and hands the final name to nothing else that could create it; (backend-first) cacheBackend.Save/Remove touch the cache only behind the success edge of the wrapped backend's operation and report success only after it, and a failed download into the cache removes the partial entry; (forget-and-retry) LoadRaw, LoadBlob, listPack and checkPack each drop the cached copy (cache.Forget, or no cache configured) between a failed/mismatching attempt and the single retry; (nil-only-after-hash, C02) every load path returns success only after the hash comparison, so a stale or corrupted cache file is either detected and replaced or reported; (cache-locks) cacheBackend.inProgress is only touched under inProgressMutex. Not decided: concurrent clearing of the cache directory by another process at arbitrary points (file-system races).",
+		Explanation: "Decides the shape that keeps a cache in any state from changing what restic reads: (atomic-save) Cache.save publishes a cache file only by renaming a completely copied and closed temporary created in the same directory, removes the temporary on errors and hands the final name to nothing else that could create it; (backend-first) cacheBackend.Save/Remove touch the cache only behind the success edge of the wrapped backend's operation and report success only after it, and a failed download into the cache removes the partial entry; (forget-and-retry) LoadRaw, LoadBlob, listPack and checkPack each drop the cached copy (cache.Forget, or no cache configured) between a failed/mismatching attempt and the single retry; (nil-only-after-hash, C02) every load path returns success only after the hash comparison, so a stale or corrupted cache file is either detected and replaced or reported; (cache-locks) cacheBackend.inProgress is only touched under inProgressMutex; (forget-allowance) Cache.Forget marks a handle in its delete-at-most-once table only on the edge where Cache.remove reported an actual deletion (remove returns true only as os.Remove(...)==nil) and deletes only handles not marked before, so a failed first load of an uncached file cannot use up the one repair a later corrupted cache file needs — added after a seeded change. Not decided: concurrent clearing of the cache directory by another process at arbitrary points (file-system races).",
 		Assumptions: append([]string{"os.Rename within one directory is atomic"}, commonAssumptions...),
 		Technique:   "static analysis: CFG edge cuts for save/retry ordering + lockset + nil-flow of load results (go/ssa)",
 		Run: func(c *eng.Ctx) {
@@ -156,8 +156,11 @@ func init() {
 			ruleForgetAndRetry(c)
 			ruleNilOnlyAfterHash(c)
 			ruleGuardedFields(c, cacheInProgressGuard)
+			ruleForgetAllowance(c)
 		},
 		Controls: []Control{
+			{Name: "forget-marks-handles-it-did-not-delete", File: "internal/backend/cache/file.go",
+				Old: "	removed, err := c.remove(h)\n	if removed {\n		c.forgotten.Store(h, struct{}{})\n	}\n	return err", New: "	_, err := c.remove(h)\n	c.forgotten.Store(h, struct{}{})\n	return err", Rule: "forget-allowance"},
 			{Name: "cache-before-backend", File: "internal/backend/cache/backend.go",
 				Old: "	// first, save in the backend\n	err = b.Backend.Save(ctx, h, rd)\n	if err != nil {\n		return err\n	}\n\n	// next, save in the cache\n	err = rd.Rewind()\n	if err != nil {\n		return err\n	}\n\n	err = b.Cache.save(h, rd)\n	if err != nil {\n		debug.Log(\"unable to save %v to cache: %v\", h, err)\n		return err\n	}\n\n	return nil",
 				New: "	err = b.Cache.save(h, rd)\n	if err != nil {\n		debug.Log(\"unable to save %v to cache: %v\", h, err)\n		return err\n	}\n	err = rd.Rewind()\n	if err != nil {\n		return err\n	}\n	return b.Backend.Save(ctx, h, rd)", Rule: "backend-first"},
